@@ -127,7 +127,7 @@ def run(chk, tier):
         if q:
             wide.append(q)
     # ... and programs with collect forms over generators (inlining of generator functions into the gathering loop)
-    wide += progen.generator_collect_family((chk.seed + 29) % 1000003, 10 if tier == "quick" else 150)
+    wide += progen.generator_collect_family((chk.seed + 29) % 1000003, 10 if tier == "quick" else 150, with_try=False)
     # ... and programs whose functions compute an expression on a path that may not run and again after the join
     for i in range(nwide // 6):
         g = progen.ProgGen(((chk.seed + 27) % 1000003) * 100003 + i, emph=("cse", "call"), size=6)
